@@ -448,13 +448,26 @@ func c04Bounds(c *Ctx, r *Report) {
 					}
 					report("C04.R1", in, "slice", okAll, desc)
 				case *ssa.MakeSlice:
-					if _, isC := constInt(x.Len); isC {
+					// what is allocated is the capacity (make([]T, 0, n) allocates n elements); the capacity is the
+					// length where none is given
+					szV := x.Cap
+					if szV == nil {
+						szV = x.Len
+					}
+					if _, isC := constInt(szV); isC {
 						continue
 					}
-					sz := p.lin(x.Len)
+					sz := p.lin(szV)
 					// the length of an object that already exists in memory (plus a small constant) is not a
 					// number a peer can choose beyond what it has already made the process hold
 					existing := sz.ok && sz.neg == "" && strings.HasPrefix(string(sz.pos), "len(") && sz.c >= 0 && sz.c <= 4096
+					if !existing {
+						// a sum of lengths of existing objects and small constants, possibly divided by a constant >= 1
+						if k, ok := lenSumBound(szV, 0); ok && k <= 4096 {
+							existing = true
+							sz.ok = true
+						}
+					}
 					report("C04.R2", in, "make", sz.ok && (existing || p.entails(b, sz, 66560)), "size <= 66560 (or the length of an existing object)")
 				case *ssa.BinOp:
 					if x.Op != token.QUO && x.Op != token.REM {
@@ -1204,4 +1217,33 @@ func auditedThroughCallers(c *Ctx, fn *ssa.Function, in ssa.Instruction, audited
 		keys = append(keys, found)
 	}
 	return keys, why
+}
+
+// lenSumBound: v is built from len(...) of existing objects, non-negative constants, additions and divisions by a
+// constant >= 1 only; then v <= (sum of the lengths of objects already in memory) + the constant returned.
+func lenSumBound(v ssa.Value, depth int) (int64, bool) {
+	if depth > 8 {
+		return 0, false
+	}
+	if k, ok := constInt(v); ok {
+		return k, k >= 0
+	}
+	switch x := v.(type) {
+	case *ssa.Call:
+		if b, ok := x.Call.Value.(*ssa.Builtin); ok && b.Name() == "len" {
+			return 0, true
+		}
+	case *ssa.BinOp:
+		switch x.Op {
+		case token.ADD:
+			a, ok1 := lenSumBound(x.X, depth+1)
+			b, ok2 := lenSumBound(x.Y, depth+1)
+			return a + b, ok1 && ok2
+		case token.QUO:
+			if d, ok := constInt(x.Y); ok && d >= 1 {
+				return lenSumBound(x.X, depth+1)
+			}
+		}
+	}
+	return 0, false
 }
